@@ -256,9 +256,7 @@ def main():
         "checks": checks,
         "notes": "All checks run the real code from /repo's working tree under /venv/bin/python; exit 0 held / 1 "
                  "violation / 2 inconclusive. Known findings: known_findings.txt (fixed: lines record repaired "
-                 "defects and suppress nothing; open: lines KF-29, KF-29a-c record one genuine defect of C11 that was "
-                 "recorded rather than repaired - DESIGN.md 7.2 #29 - and the C11 check prints a KNOWN-FINDING line for it "
-                 "on every run).",
+                 "defects and suppress nothing).",
         "not_applicable": na,
     }
     path = os.path.join(HERE, "MANIFEST.json")
